@@ -20,15 +20,18 @@ vars == <<l, a, reqs>>
 None == [none |-> TRUE]
 Init == l = 1 /\ a = None /\ reqs = 0
 
-Typed(o) == CASE o.class = "true" -> BoolV(TRUE) [] o.class = "false" -> BoolV(FALSE)
-              [] o.class = "int" -> IntV(o.ival) [] OTHER -> KwV(o.text)
-RECURSIVE OptCalls(_,_)
-OptCalls(os, i) == IF i > Len(os) THEN <<>>
-                   ELSE (IF os[i].class = "noeq" THEN <<>> ELSE <<[c |-> "attribute", name |-> os[i].k, v |-> Typed(os[i])]>>)
-                        \o OptCalls(os, i + 1)
-Calls(ar) == (IF ar.jobname.has THEN <<[c |-> "job_title", s |-> ar.jobname.s]>> ELSE <<>>)
-             \o (IF ar.username.has THEN <<[c |-> "user_name", s |-> ar.username.s]>> ELSE <<>>)
-             \o OptCalls(ar.opts, 1)
+(* "+5" is accepted by i32 parsing but is arguably not "a decimal integer": either typing is a step (alt) *)
+Typed(o, alt) == CASE o.class = "true" -> BoolV(TRUE) [] o.class = "false" -> BoolV(FALSE)
+                   [] o.class = "int" -> IntV(o.ival)
+                   [] o.class = "plusint" -> (IF alt THEN IntV(o.ival) ELSE KwV(o.text))
+                   [] OTHER -> KwV(o.text)
+RECURSIVE OptCalls(_,_,_)
+OptCalls(os, i, alt) == IF i > Len(os) THEN <<>>
+                        ELSE (IF os[i].class = "noeq" THEN <<>> ELSE <<[c |-> "attribute", name |-> os[i].k, v |-> Typed(os[i], alt)]>>)
+                             \o OptCalls(os, i + 1, alt)
+Calls(ar, alt) == (IF ar.jobname.has THEN <<[c |-> "job_title", s |-> ar.jobname.s]>> ELSE <<>>)
+                  \o (IF ar.username.has THEN <<[c |-> "user_name", s |-> ar.username.s]>> ELSE <<>>)
+                  \o OptCalls(ar.opts, 1, alt)
 Checked == ~a.args.nocheck
 ObservedUri(gs) == IF Len(gs) >= 1 /\ N_puri \in DOMAIN gs[1].attrs THEN gs[1].attrs[N_puri] ELSE [k |-> "MISSING"]
 HasHeader(h, name, value) == name \in DOMAIN h /\ \E i \in 1..Len(h[name]) : h[name][i] = value
@@ -42,15 +45,15 @@ UReq(e) ==
   /\ LET r    == Reading(AbsToks(e.toks))
          uriV == ObservedUri(r.v)
          isCheck == Checked /\ reqs = 0
-         exp  == IF isCheck THEN Build("GetPrinterAttributes", <<>>, 0, uriV)
-                 ELSE Build("PrintJob", Calls(a.args), 0, uriV)
+         exp(alt) == IF isCheck THEN Build("GetPrinterAttributes", <<>>, 0, uriV)
+                     ELSE Build("PrintJob", Calls(a.args, alt), 0, uriV)
          \* the state query may ask for any subset of attributes: requested-attributes is not compared
          seen == IF isCheck /\ Len(r.v) >= 1
                  THEN [r.v EXCEPT ![1].attrs = [n \in (DOMAIN r.v[1].attrs) \ {N_req} |-> r.v[1].attrs[n]]]
                  ELSE r.v
      IN /\ r.ok
-        /\ e.hdr_ipp.ver = exp.ver /\ e.hdr_ipp.code = exp.code
-        /\ NormMsg(seen) = NormMsg(exp.groups)
+        /\ e.hdr_ipp.ver = exp(TRUE).ver /\ e.hdr_ipp.code = exp(TRUE).code
+        /\ \E alt \in BOOLEAN : ReqNorm(seen) = ReqNorm(exp(alt).groups)
         /\ uriV.k = "Uri" /\ IsCanonOf(e.puri, a.target)
         /\ (isCheck => e.paylen = 0)
         /\ (~isCheck => /\ e.pay_ok                                   \* the document is the file, unchanged
@@ -77,7 +80,7 @@ OReq(e) ==
          uriV == ObservedUri(r.v)
          exp  == Build(a.op, OCalls(a), a.jobid, uriV)
      IN /\ r.ok /\ e.hdr_ipp.ver = exp.ver /\ e.hdr_ipp.code = exp.code
-        /\ NormMsg(r.v) = NormMsg(exp.groups)
+        /\ ReqNorm(r.v) = ReqNorm(exp.groups)
         /\ uriV.k = "Uri" /\ IsCanonOf(e.puri, a.target)
         /\ e.paylen = 0
   /\ reqs' = 1 /\ UNCHANGED a
